@@ -316,9 +316,11 @@ theorem applyAff_dim (h src t : Mat) (ha : applyAff h src = .ok t) (p : Vec) (hp
       exact hall p hp
     · cases ha
 
-/-- the target is *some* affine image of the source (true of every well-formed alignment, and kept by every
-parameter update followed by a re-sync): what `_verify_target` then accepts -/
-def Resynced (y : Xf) : Prop := ∃ h0, applyAff h0 y.src = .ok y.tgt
+/-- the shape condition `_verify_target` checks: the target has as many points as the source and their width.  True
+of every alignment the constructors build (source and target must have the same shape), whatever the target's values —
+in particular of a freshly built alignment whose target is NOT the aligned source — and kept by every parameter update. -/
+def Conforms (y : Xf) : Prop :=
+  y.tgt.length = y.src.length ∧ ∀ p, y.src.head? = some p → Np.ncols y.tgt = p.length
 
 /-- the re-sync assembled from the translated suppliers: `_sync_target_from_state` takes the new target from
 `_new_target_from_state` = `aligned_source()` = `self.apply(self.source)` and installs it through
@@ -326,17 +328,16 @@ def Resynced (y : Xf) : Prop := ∃ h0, applyAff h0 y.src = .ok y.tgt
 def syncWith (nt : Xf → Except Err Mat) (ver set : Xf → Mat → Except Err Xf) (x : Xf) : Except Err Xf :=
   Src.Targetable__sync_target_from_state nt (Src.Targetable__target_setter_with_verification ver set) x
 
-theorem sync_eq (y : Xf) (hres : Resynced y) :
+theorem sync_eq (y : Xf) (hres : Conforms y) :
     syncWith (Src.Alignment__new_target_from_state Src.Alignment_aligned_source) Src.Targetable__verify_target
       Src.Alignment__target_setter y = syncTarget y := by
-  obtain ⟨h0, h0e⟩ := hres
+  obtain ⟨hl0, hc0⟩ := hres
   unfold syncTarget
   cases hap : applyAff y.h y.src with
   | error e =>
     simp [syncWith, Src.Targetable__sync_target_from_state, Src.Alignment__new_target_from_state,
       Src.Alignment_aligned_source, Np.applyToSource, hap]
   | ok t =>
-    obtain ⟨hl0, hc0⟩ := applyAff_shape _ _ _ h0e
     obtain ⟨hl1, hc1⟩ := applyAff_shape _ _ _ hap
     have hlen : t.length = y.tgt.length := by rw [hl0, hl1]
     have hcol : Np.ncols t = Np.ncols y.tgt := by
@@ -347,12 +348,24 @@ theorem sync_eq (y : Xf) (hres : Resynced y) :
         simp_all
       | cons p ps =>
         have hne : y.src ≠ [] := by rw [hs]; simp
-        have d0 := applyAff_dim _ _ _ h0e p (by rw [hs]; simp)
+        have d0 := hc0 p (by rw [hs]; rfl)
         have d1 := applyAff_dim _ _ _ hap p (by rw [hs]; simp)
-        rw [hc0 hne, hc1 hne]; omega
+        rw [hc1 hne, d0]; omega
     simp [syncWith, Src.Targetable__sync_target_from_state, Src.Alignment__new_target_from_state,
       Src.Alignment_aligned_source, Np.applyToSource, hap, Src.Targetable__target_setter_with_verification,
       Src.Targetable__verify_target, Src.Alignment__target_setter, Np.cloudDims, Np.cloudPoints, hlen, hcol]
+
+/-- a target that IS an affine image of the source conforms (well-formed alignments) -/
+theorem conforms_of_image (y : Xf) (h0 : Mat) (hh : applyAff h0 y.src = .ok y.tgt) : Conforms y := by
+  obtain ⟨hl, hc⟩ := applyAff_shape _ _ _ hh
+  refine ⟨hl, fun p hp => ?_⟩
+  have hne : y.src ≠ [] := by intro h; rw [h] at hp; cases hp
+  have hm : p ∈ y.src := by
+    cases hs : y.src with
+    | nil => exact absurd hs hne
+    | cons q qs => rw [hs] at hp; cases hp; simp
+  have d := applyAff_dim _ _ _ hh p hm
+  rw [hc hne]; omega
 
 /-! ### the alignment variants: the parameter update of the plain class, then the re-sync -/
 
